@@ -1,0 +1,13 @@
+//go:build verif
+
+package types
+
+// Contracts for the verification machinery in /verif (comment-only file; no code).
+//
+// verif:import host github.com/teleport-network/teleport/x/xibc/core/host
+// verif:import clienttypes github.com/teleport-network/teleport/x/xibc/core/client/types
+
+// ---- metadata export: every processed-time entry is visited, whatever bytes its height contains (C13, C19) ----
+// verif:func IterateProcessedTime
+//@ loop 1 forkey rev uint64, h uint64 :: ProcessedTimeKey(clienttypes.NewHeight(rev, h))
+//@ loop 1 continue [parse-back] ncalls("cb") == 1 && callarg("cb", 0) == ProcessedTimeKey(clienttypes.NewHeight(rev, h))
